@@ -80,24 +80,116 @@ def _on_every_cycle(cfg, loop, block):
     return True
 
 
+VARIANT_INDEX = {"Ok": 0, "Err": 1, "None": 0, "Some": 1, "Continue": 0, "Break": 1}
+
+
 def _edge_leaves(cfg, loop, edge):
-    """the edge's target is outside the loop, or every path from it leaves the loop without reaching the header again"""
+    """the edge's target is outside the loop, or every FEASIBLE path from it leaves the loop without reaching the header again.
+    Feasibility is tracked for enum variants only: after `x = Err(..)` (typically the inlined return of a helper) a later
+    `match x` / `x?` / `x.is_err()` takes the matching arm - the continuation of an inlined call merges the helper's Ok and Err
+    returns, and without this correlation the Err return would seem to run on into the Ok arm."""
     src, dst = edge
     if dst not in loop.body:
         return True
-    # inside the body but never returns to the header (e.g. leads to a `return`)
+    reach = feasible_reach(cfg, edge, stop=(loop.header,))
+    return reach is not None and loop.header not in reach
+
+
+def feasible_reach(cfg, edge, avoid=(), stop=()):
+    """blocks reachable from the target of `edge` (never entering `avoid`, not continuing past `stop`) on paths that are feasible
+    w.r.t. the enum variants assigned along the way; None when the walk is too large (callers must then assume everything)"""
+    src, dst = edge
+    blocks = cfg.blocks
+    start = _flow_block(blocks, src, {}, only_term=True)
+    avoid, stop = set(avoid), set(stop)
     seen = set()
-    stack = [dst]
+    out = set()
+    stack = [(dst, start)] if dst not in avoid else []
+    steps = 0
     while stack:
-        n = stack.pop()
-        if n == loop.header:
-            return False
-        if n in seen:
+        n, st = stack.pop()
+        out.add(n)
+        if n in stop:
             continue
-        seen.add(n)
-        for s in cfg.succ[n]:
-            stack.append(s)
-    return True
+        key = (n, tuple(sorted((repr(k), repr(v)) for k, v in st.items())))
+        if key in seen:
+            continue
+        seen.add(key)
+        steps += 1
+        if steps > 20000:
+            return None
+        st2 = _flow_block(blocks, n, st)
+        for s2 in _feasible_succ(cfg, blocks, n, st2):
+            if s2 not in avoid:
+                stack.append((s2, st2))
+    return out
+
+
+def _flow_block(blocks, n, st, only_term=False):
+    """variant knowledge after block n: {local: variant} | {('discr', local): enum local} | {('ref', local): referent local} | {('bool', local): bool}"""
+    st = dict(st)
+    b = blocks[n]
+    if not only_term:
+        for s in b["stmts"]:
+            if s["k"] != "assign":
+                continue
+            pl = s["place"]
+            l = pl["l"]
+            if pl["p"]:
+                # a field write into l: its variant stays, anything derived from it does not matter here
+                continue
+            for k in [k for k in st if k == l or (isinstance(k, tuple) and k[1] == l)]:
+                del st[k]
+            rv = s["rv"]
+            if rv["k"] == "aggregate" and rv.get("variant") is not None:
+                st[l] = rv["variant"]
+            elif rv["k"] == "use" and rv["ops"][0].get("k") in ("copy", "move") and not rv["ops"][0]["p"]:
+                m = rv["ops"][0]["l"]
+                if m in st:
+                    st[l] = st[m]
+                if ("bool", m) in st:
+                    st[("bool", l)] = st[("bool", m)]
+            elif rv["k"] == "discr" and not rv["place"]["p"]:
+                st[("discr", l)] = rv["place"]["l"]
+            elif rv["k"] == "ref" and not rv["place"]["p"]:
+                st[("ref", l)] = rv["place"]["l"]
+            elif rv["k"] == "unop" and rv.get("op") == "Not" and rv["ops"][0].get("k") in ("copy", "move") and ("bool", rv["ops"][0]["l"]) in st:
+                st[("bool", l)] = not st[("bool", rv["ops"][0]["l"])]
+    t = b["term"]
+    if t["k"] == "call" and t.get("dest") is not None and not t["dest"]["p"]:
+        l = t["dest"]["l"]
+        for k in [k for k in st if k == l or (isinstance(k, tuple) and k[1] == l)]:
+            del st[k]
+        cn = callee_name(t) or ""
+        a0 = t["args"][0] if t["args"] else None
+        if a0 is not None and a0.get("k") in ("copy", "move") and not a0["p"]:
+            m = a0["l"]
+            if cn.endswith("as std::ops::Try>::branch") and st.get(m) in ("Ok", "Err", "Some", "None"):
+                st[l] = "Continue" if st[m] in ("Ok", "Some") else "Break"
+            elif cn in ("std::result::Result::<T, E>::is_err", "std::result::Result::<T, E>::is_ok", "std::option::Option::<T>::is_some", "std::option::Option::<T>::is_none"):
+                r = st.get(("ref", m), None)
+                v = st.get(r) if r is not None else None
+                if v is not None:
+                    good = v in ("Ok", "Some")
+                    st[("bool", l)] = good if cn.endswith(("is_ok", "is_some")) else (not good)
+    return st
+
+
+def _feasible_succ(cfg, blocks, n, st):
+    t = blocks[n]["term"]
+    if t["k"] == "switch" and t["discr"].get("k") in ("copy", "move") and not t["discr"]["p"]:
+        x = t["discr"]["l"]
+        val = None
+        if ("discr", x) in st and st.get(st[("discr", x)]) in VARIANT_INDEX:
+            val = VARIANT_INDEX[st[st[("discr", x)]]]
+        elif ("bool", x) in st:
+            val = 1 if st[("bool", x)] else 0
+        if val is not None:
+            for v, tb in t["targets"]:
+                if v == val:
+                    return [tb]
+            return [t["otherwise"]]
+    return [s for s in cfg.succ.get(n, [])]
 
 
 def classify(fn, loop):
@@ -272,41 +364,110 @@ SHRINKING = ("std::string::String::from_utf8", "::unwrap", "::expect", "as std::
 EMPTY_NEW = ("std::vec::Vec::<T>::new", "std::string::String::new", "std::vec::Vec::<T>::with_capacity", "std::string::String::with_capacity")
 
 
+def _path(proj):
+    return tuple(e for e in proj if e != "*")
+
+
 def _from_buffer(du, v, B, depth=0, blocks=None):
-    """the value is empty whenever the local B (a Vec<u8> / String) is empty: B itself or a content-preserving / shrinking conversion of it.
+    """the value is empty whenever the local B (a Vec<u8> / String) is empty: B itself or a content-preserving / shrinking conversion of it,
+    possibly wrapped in Ok(..) / a tuple by a helper and unwrapped again by `?` / `match` / `unwrap` (an access path is tracked).
     Returns the list of blocks whose calls compute the chain (None when v does not derive from B)."""
     if blocks is None:
         blocks = []
-    if depth > 14:
+    if depth > 24:
         return None
-    if v[0] == "ref":
-        if v[1][0] == B:
-            return blocks if all(e == "*" for e in v[1][1]) else None
-        # re-borrow `&*r` of a reference-typed local, `&x` of an owned local, `&(x as Ok).0` of a Result: all derived from x
-        return _from_buffer(du, ("place", (v[1][0], ())), B, depth + 1, blocks)
-    if v[0] == "place":
-        if v[1][0] == B and all(e == "*" for e in v[1][1]):
-            return blocks
-        if v[1][0] == B:
-            return None
-        # a projection (the Ok payload moved out by a `match`, a deref) of a local derived from the buffer
-        ds = du.defs.get(v[1][0], [])
-        if not ds:
-            return None
-        for d in ds:
-            if d[0] == "call":
-                if _from_buffer(du, du.val_call(d[3], depth + 1, d[1]), B, depth + 1, blocks) is None:
-                    return None
-            elif d[0] == "assign":
-                if _from_buffer(du, du.val_rvalue(d[3], depth + 1, d[1]), B, depth + 1, blocks) is None:
-                    return None
-            else:
-                return None
-        return blocks
+    if v[0] in ("ref", "place"):
+        return _derives(du, v[1][0], _path(v[1][1]), B, depth + 1, blocks)
     if v[0] == "call" and v[1] and v[2] and any(x in v[1] for x in SHRINKING):
         blocks.append(v[3])
         return _from_buffer(du, v[2][0], B, depth + 1, blocks)
     return None
+
+
+def _strip_payload(path):
+    """`(x as Ok).0 ...` / `(x as Some).0 ...` -> `...`"""
+    if len(path) >= 2 and path[0][0] == "d" and path[0][1] in ("Ok", "Some", "Continue") and path[1][0] == "f" and path[1][1] == 0:
+        return path[2:]
+    return path
+
+
+def _derives(du, l, path, B, depth, blocks):
+    if depth > 24:
+        return None
+    if l == B:
+        return blocks if not path else None
+    ds = du.defs.get(l, [])
+    if not ds:
+        return None
+    seen = 0
+    for d in ds:
+        if d[0] == "call":
+            t = d[3]
+            cn = callee_name(t) or ""
+            a0 = t["args"][0] if t["args"] else None
+            if a0 is None or a0.get("k") not in ("copy", "move"):
+                return None
+            src = place_key(a0)
+            if cn.endswith("as std::ops::Try>::branch"):
+                # `helper(..)?`: the Continue payload of Try::branch(r) is the Ok payload of r
+                if not path or path[0] != ("d", "Continue"):
+                    return None
+                if _derives(du, src[0], _path(src[1]) + (("d", "Ok"),) + path[1:], B, depth + 1, blocks) is None:
+                    return None
+            elif cn.endswith("::unwrap") or cn.endswith("::expect"):
+                if _derives(du, src[0], _path(src[1]) + (("d", "Ok"), ("f", 0, "0")) + path, B, depth + 1, blocks) is None \
+                        and _derives(du, src[0], _path(src[1]) + (("d", "Some"), ("f", 0, "0")) + path, B, depth + 1, blocks) is None:
+                    return None
+            elif any(x in cn for x in SHRINKING):
+                if _strip_payload(path):
+                    return None
+                blocks.append(d[1])
+                if _derives(du, src[0], _path(src[1]), B, depth + 1, blocks) is None:
+                    return None
+            else:
+                return None
+            seen += 1
+        elif d[0] == "assign":
+            rv = d[3]
+            k = rv["k"]
+            if k == "aggregate":
+                p = path
+                variant = rv.get("variant")
+                if variant is not None:
+                    if not p or p[0][0] != "d":
+                        return None
+                    if p[0][1] != variant:
+                        continue              # Err(..) built on another path: not what this projection reads
+                    p = p[1:]
+                if not p or p[0][0] != "f" or p[0][1] >= len(rv["ops"]):
+                    return None
+                op = rv["ops"][p[0][1]]
+                if op.get("k") not in ("copy", "move"):
+                    return None
+                src = place_key(op)
+                if _derives(du, src[0], _path(src[1]) + p[1:], B, depth + 1, blocks) is None:
+                    return None
+            elif k == "use":
+                op = rv["ops"][0]
+                if op.get("k") not in ("copy", "move"):
+                    return None
+                src = place_key(op)
+                if _derives(du, src[0], _path(src[1]) + path, B, depth + 1, blocks) is None:
+                    return None
+            elif k in ("ref", "rawptr"):
+                src = place_key(rv["place"])
+                if _derives(du, src[0], _path(src[1]) + path, B, depth + 1, blocks) is None:
+                    return None
+            elif k == "cast" and rv["ops"] and rv["ops"][0].get("k") in ("copy", "move"):
+                src = place_key(rv["ops"][0])      # unsizing / pointer casts of a reference to the buffer
+                if _derives(du, src[0], _path(src[1]) + path, B, depth + 1, blocks) is None:
+                    return None
+            else:
+                return None
+            seen += 1
+        else:
+            return None
+    return blocks if seen else None
 
 
 def _readb(cfg, du, loop, t, bid):
@@ -386,9 +547,24 @@ def _is_count_of(du, v, call_block, depth=0):
         vv = du.val_place(v[1])
         if vv != v:
             return _is_count_of(du, vv, call_block, depth + 1)
-        # multi-def user variable: every definition is an integer constant or this read's count
+        # `match read(..) { Ok(n) => n, .. }` / `read(..)?`: the Ok payload of this call's result
         if v[1][1]:
+            p = tuple(e for e in v[1][1] if e != "*")
+            if len(p) == 2 and p[0][0] == "d" and p[0][1] in ("Ok", "Continue") and p[1][0] == "f" and p[1][1] == 0:
+                ds = du.defs.get(v[1][0], [])
+                if len(ds) == 1 and ds[0][0] == "call":
+                    if ds[0][1] == call_block:
+                        return True
+                    t = ds[0][3]
+                    if (callee_name(t) or "").endswith("as std::ops::Try>::branch") and t["args"] and t["args"][0].get("k") in ("copy", "move"):
+                        a = place_key(t["args"][0])
+                        ads = du.defs.get(a[0], [])
+                        return not a[1] and len(ads) == 1 and ads[0][0] == "call" and ads[0][1] == call_block
+                if len(ds) == 1 and ds[0][0] == "assign" and ds[0][3]["k"] == "use" and ds[0][3]["ops"][0].get("k") in ("copy", "move"):
+                    src = place_key(ds[0][3]["ops"][0])
+                    return _is_count_of(du, ("place", (src[0], tuple(src[1]) + p)), call_block, depth + 1)
             return False
+        # multi-def user variable: every definition is an integer constant or this read's count
         hit = False
         for d in du.defs.get(v[1][0], []):
             if d[0] == "call" and d[1] == call_block:
@@ -431,8 +607,22 @@ def loop_rule(ctx, chk, prop, rule_name, seen):
         fn = F.fns.get(n)
         if fn is None or fn.kind == "Promoted":
             continue
+        inl = None
         for lp in loops_of(fn):
             classify(fn, lp)
+            if not lp.form:
+                # the evidence of termination (the read, the counter update) may sit in a private helper: look at the body with
+                # those helpers inlined (A11); block ids of the caller are unchanged, so the loop is found again by its header
+                if inl is None:
+                    from .inline import inlined
+                    inl = inlined(F, fn)
+                if inl is not fn:
+                    for lp2 in loops_of(inl):
+                        if lp2.header == lp.header:
+                            classify(inl, lp2)
+                            if lp2.form:
+                                lp.form, lp.why = lp2.form, lp2.why + " (private helpers inlined)"
+                            break
             cfg = cfg_of(fn)
             line = cfg.blocks[lp.header]["term"]["span"]["line"]
             if lp.form:
